@@ -1132,6 +1132,7 @@ class ServiceInstance:
         self._task.cancel()
         asyncio.create_task(wait_cancelled(self._task))
         self._task = None
+        self._can_answer_offers = False
 
         # cyclic tasks send stop when they are cancelled
         if not self.timings.CYCLIC_OFFER_DELAY:
